@@ -175,6 +175,13 @@ func NilWalkAfterWith(fn *ssa.Function, after ssa.Instruction, facts NilFacts, c
 
 var walkInitFacts NilFacts
 
+// NilWalkEntryWith walks from the entry with the given facts assumed (for instance about parameters).
+func NilWalkEntryWith(fn *ssa.Function, facts NilFacts, cut map[Edge]bool, stopAt func(ssa.Instruction) bool, onInstr func(ssa.Instruction, NilFacts)) NilWalkResult {
+	walkInitFacts = facts
+	defer func() { walkInitFacts = nil }()
+	return nilWalk(fn, nil, nil, cut, stopAt, onInstr)
+}
+
 // MaxWalkStates bounds one path-sensitive walk; exceeding it is reported as Overflow (undecided).
 var MaxWalkStates = 200000
 
@@ -230,7 +237,11 @@ func nilWalk(fn *ssa.Function, from map[Edge]bool, after ssa.Instruction, cut ma
 		if len(fn.Blocks) == 0 {
 			return res
 		}
-		work = append(work, item{fn.Blocks[0], nil, NilFacts{}, 0, map[ssa.Value]ssa.Value{}})
+		f0 := NilFacts{}
+		for k, v := range walkInitFacts {
+			f0[k] = v
+		}
+		work = append(work, item{fn.Blocks[0], nil, f0, 0, map[ssa.Value]ssa.Value{}})
 	} else {
 		for e := range from {
 			if cut[e] {
